@@ -194,9 +194,9 @@ Proof.
 Qed.
 
 (* ---- build expressions ---------------------------------------------------------------------------------- *)
-Lemma includes_spec e that : includes e that = true <-> denotes e that.
+Lemma includes_spec e that : includes e that = true <-> denotes_names e that.
 Proof.
-  unfold includes, denotes, is_all_subpackages, is_all_targets. rewrite gen_all_sub, gen_all_targets, gen_pkg_sep.
+  unfold includes, denotes_names, is_all_subpackages, is_all_targets. rewrite gen_all_sub, gen_all_targets, gen_pkg_sep.
   destruct (str_eqb_spec (l_name e) (s "...")) as [Hsub|Hsub];
   destruct (str_eqb_spec (l_pkg e) []) as [Hroot|Hroot];
   destruct (str_eqb_spec (l_pkg that) (l_pkg e)) as [Hpkg|Hpkg];
@@ -216,7 +216,7 @@ Proof.
               by (apply has_prefix_spec; exists rest; rewrite H2, <- app_assoc; reflexivity); congruence).
 Qed.
 
-Lemma any_includes_spec ets l : any_includes ets l = true <-> exists e, In e ets /\ denotes e l.
+Lemma any_includes_spec ets l : any_includes ets l = true <-> exists e, In e ets /\ denotes_names e l.
 Proof.
   induction ets as [|e ets IH]; cbn [any_includes].
   - split; [discriminate | intros [e [[] _]]].
@@ -235,17 +235,17 @@ Proof.
 Qed.
 
 (* ---- SetIncludeAndExclude ------------------------------------------------------------------------------- *)
-Lemma set_exclude_loop_spec exclude : forall exc ets exc' ets',
-  set_exclude_loop exclude exc ets = Some (exc', ets') ->
+Lemma set_exclude_loop_spec cur exclude : forall exc ets exc' ets',
+  set_exclude_loop cur exclude exc ets = Some (exc', ets') ->
   (forall g, In g exc' <-> In g exc \/ (In g exclude /\ looks_like_label g = false))
-  /\ (forall e, In e ets' <-> In e ets \/ exists x, In x exclude /\ looks_like_label x = true /\ parse_exclude x = Some e).
+  /\ (forall e, In e ets' <-> In e ets \/ exists x, In x exclude /\ looks_like_label x = true /\ parse_exclude cur x = Some e).
 Proof.
   induction exclude as [|x exclude IH]; intros exc ets exc' ets' H; cbn [set_exclude_loop] in H.
   - injection H as <- <-. split; intros y; split; auto.
     + intros [Hy | [[] _]]; exact Hy.
     + intros [Hy | [x [[] _]]]; exact Hy.
   - destruct (looks_like_label x) eqn:El.
-    + destruct (parse_exclude x) as [l|] eqn:Ep; [|discriminate].
+    + destruct (parse_exclude cur x) as [l|] eqn:Ep; [|discriminate].
       apply IH in H as [H1 H2]. split.
       * intros g. rewrite H1. split.
         -- intros [Hg | [Hg Hl]]; [left; exact Hg | right; split; [right; exact Hg | exact Hl]].
@@ -274,14 +274,14 @@ Proof.
         -- intros [He | [y [[<-|Hy] [Hl Hp]]]]; [left; exact He | congruence | right; exists y; repeat split; assumption].
 Qed.
 
-Lemma set_include_and_exclude_spec include exclude st :
-  set_include_and_exclude empty_state include exclude = Some st ->
+Lemma set_include_and_exclude_spec cur include exclude st :
+  set_include_and_exclude cur empty_state include exclude = Some st ->
   st_include st = include
   /\ (forall g, In g (st_exclude st) <-> In g exclude /\ ~ is_expression g)
-  /\ (forall e, In e (st_exclude_targets st) <-> exists x, In x exclude /\ is_expression x /\ parse_exclude x = Some e).
+  /\ (forall e, In e (st_exclude_targets st) <-> exists x, In x exclude /\ is_expression x /\ parse_exclude cur x = Some e).
 Proof.
   unfold set_include_and_exclude. cbn [st_exclude_targets empty_state].
-  destruct (set_exclude_loop exclude [] []) as [[exc ets]|] eqn:E; [|discriminate].
+  destruct (set_exclude_loop cur exclude [] []) as [[exc ets]|] eqn:E; [|discriminate].
   intros H. injection H as <-. cbn [st_include st_exclude st_exclude_targets].
   apply set_exclude_loop_spec in E as [H1 H2]. split; [reflexivity|]. split.
   - intros g. rewrite H1, <- looks_like_spec. split.
@@ -292,43 +292,83 @@ Proof.
     + intros [x [Hx [Hl Hp]]]. right. exists x. rewrite looks_like_spec. repeat split; assumption.
 Qed.
 
-(* ---- BuildState.ShouldInclude: the per-target theorem ---------------------------------------------------- *)
-Lemma state_should_include_spec include exclude st t :
-  set_include_and_exclude empty_state include exclude = Some st ->
-  (state_should_include st t = true <-> selected include exclude t).
+(* ---- BuildState.ShouldInclude: the per-target theorems -------------------------------------------------- *)
+Lemma confused_false st t :
+  confused st t = false <->
+  forall e, In e (st_exclude_targets st) -> denotes_names e (t_label t) -> l_sub (t_label t) = l_sub e.
+Proof.
+  unfold confused. split.
+  - intros H e He Hd. destruct (str_eqb_spec (l_sub e) (t_sub t)) as [Heq|Hne]; [symmetry; exact Heq|].
+    exfalso. assert (Hx : existsb (fun e => includes e (t_label t) && negb (str_eqb (l_sub e) (t_sub t))) (st_exclude_targets st) = true).
+    { apply existsb_exists. exists e. split; [exact He|]. apply andb_true_iff. split.
+      - apply includes_spec. exact Hd.
+      - destruct (str_eqb_spec (l_sub e) (t_sub t)); [contradiction | reflexivity]. }
+    congruence.
+  - intros H. destruct (existsb _ _) eqn:E; [|reflexivity]. exfalso.
+    apply existsb_exists in E as [e [He Hc]]. apply andb_true_iff in Hc as [Hi Hs].
+    apply includes_spec in Hi. specialize (H e He Hi). cbn [t_label l_sub] in H.
+    destruct (str_eqb_spec (l_sub e) (t_sub t)) as [Heq|Hne]; [discriminate | congruence].
+Qed.
+
+(* sound, always: what BuildState.ShouldInclude accepts is selected by the documented rule *)
+Lemma state_should_include_sound cur include exclude st t :
+  set_include_and_exclude cur empty_state include exclude = Some st ->
+  state_should_include st t = true -> selected cur include exclude t.
 Proof.
   intros Hset. apply set_include_and_exclude_spec in Hset as [Hinc [Hexc Hets]].
   unfold state_should_include, selected.
+  destruct (any_includes (st_exclude_targets st) (t_label t)) eqn:Ea; [discriminate|].
+  rewrite target_should_include_spec, Hinc.
+  intros [H1 H2]. split; [|split].
+  - destruct H1 as [H1 | [g [Hin H1]]]; [left; exact H1 | right]. exists g. split; [exact Hin|].
+    apply group_carried. exact H1.
+  - intros x Hx Hne Hc. apply H2. exists x. split; [apply Hexc; split; assumption|].
+    apply group_carried. exact Hc.
+  - intros x e Hx Hl Hp [_ Hd]. assert (any_includes (st_exclude_targets st) (t_label t) = true); [|congruence].
+    apply any_includes_spec. exists e. split; [apply Hets; exists x; repeat split; assumption | exact Hd].
+Qed.
+
+(* complete, outside the defect class: no exclude expression of another repository covers the target's names *)
+Lemma state_should_include_complete cur include exclude st t :
+  set_include_and_exclude cur empty_state include exclude = Some st ->
+  confused st t = false ->
+  selected cur include exclude t -> state_should_include st t = true.
+Proof.
+  intros Hset Hconf. pose proof (proj1 (confused_false st t) Hconf) as Hc.
+  apply set_include_and_exclude_spec in Hset as [Hinc [Hexc Hets]].
+  unfold state_should_include, selected.
   destruct (any_includes (st_exclude_targets st) (t_label t)) eqn:Ea.
-  - split; [discriminate|]. intros [_ [_ H3]]. apply any_includes_spec in Ea as [e [He Hd]].
-    apply Hets in He as [x [Hx [Hl Hp]]]. exfalso. exact (H3 x e Hx Hl Hp Hd).
-  - rewrite target_should_include_spec, Hinc. split.
-    + intros [H1 H2]. split; [|split].
-      * destruct H1 as [H1 | [g [Hin H1]]]; [left; exact H1 | right]. exists g. split; [exact Hin|].
-        apply group_carried. exact H1.
-      * intros x Hx Hne Hc. apply H2. exists x. split; [apply Hexc; split; assumption|].
-        apply group_carried. exact Hc.
-      * intros x e Hx Hl Hp Hd. assert (any_includes (st_exclude_targets st) (t_label t) = true); [|congruence].
-        apply any_includes_spec. exists e. split; [apply Hets; exists x; repeat split; assumption | exact Hd].
-    + intros [H1 [H2 _]]. split.
-      * destruct H1 as [H1 | [g [Hin H1]]]; [left; exact H1 | right]. exists g. split; [exact Hin|].
-        apply group_carried. exact H1.
-      * intros [g [Hin Hc]]. apply Hexc in Hin as [Hin Hne]. apply (H2 g Hin Hne).
-        apply group_carried. exact Hc.
+  - intros [_ [_ H3]]. apply any_includes_spec in Ea as [e [He Hd]].
+    pose proof (Hc e He Hd) as Hsub.
+    apply Hets in He as [x [Hx [Hl Hp]]]. exfalso. exact (H3 x e Hx Hl Hp (conj Hsub Hd)).
+  - rewrite target_should_include_spec, Hinc.
+    intros [H1 [H2 _]]. split.
+    + destruct H1 as [H1 | [g [Hin H1]]]; [left; exact H1 | right]. exists g. split; [exact Hin|].
+      apply group_carried. exact H1.
+    + intros [g [Hin Hcg]]. apply Hexc in Hin as [Hin Hne]. apply (H2 g Hin Hne).
+      apply group_carried. exact Hcg.
+Qed.
+
+Lemma state_should_include_spec cur include exclude st t :
+  set_include_and_exclude cur empty_state include exclude = Some st ->
+  confused st t = false ->
+  (state_should_include st t = true <-> selected cur include exclude t).
+Proof.
+  intros Hset Hc. split; [apply state_should_include_sound; exact Hset | apply state_should_include_complete; assumption].
 Qed.
 
 (* exclusion always takes priority: an exclude argument that covers the target rejects it whatever the includes *)
-Lemma exclusion_wins include exclude st t :
-  set_include_and_exclude empty_state include exclude = Some st ->
-  excluded exclude t -> state_should_include st t = false.
+Lemma exclusion_wins cur include exclude st t :
+  set_include_and_exclude cur empty_state include exclude = Some st ->
+  excluded cur exclude t -> state_should_include st t = false.
 Proof.
   intros Hset [x [Hx Hc]]. destruct (state_should_include st t) eqn:E; [|reflexivity].
-  apply (state_should_include_spec _ _ _ t Hset) in E. destruct E as [_ [H2 H3]].
+  apply (state_should_include_sound _ _ _ _ t Hset) in E. destruct E as [_ [H2 H3]].
   destruct Hc as [[Hne Hc] | [Hl [e [Hp Hd]]]]; exfalso; [exact (H2 x Hx Hne Hc) | exact (H3 x e Hx Hl Hp Hd)].
 Qed.
 
-Lemma no_filters_selects_all st t :
-  set_include_and_exclude empty_state [] [] = Some st -> state_should_include st t = true.
+Lemma no_filters_selects_all cur st t :
+  set_include_and_exclude cur empty_state [] [] = Some st -> state_should_include st t = true.
 Proof. intros H. injection H as <-. reflexivity. Qed.
 
 (* ---- expansion of :all and /... ------------------------------------------------------------------------- *)
@@ -369,36 +409,48 @@ Proof.
     rewrite H1. destruct jt; cbn; [apply H2; reflexivity | reflexivity].
 Qed.
 
+(* the printed key identifies the package: equal (subrepo, name) give equal keys *)
 Lemma find_unique (g : graph) p :
-  NoDup (map p_name g) -> In p g -> find (fun q => str_eqb (p_name q) (p_name p)) g = Some p.
+  NoDup (map pkg_key g) -> In p g ->
+  find (fun q => str_eqb (p_name q) (p_name p) && str_eqb (p_sub q) (p_sub p)) g = Some p.
 Proof.
   induction g as [|q g IH]; intros Hnd Hin; [destruct Hin|]. cbn [find map] in *.
   inversion Hnd as [|? ? Hq Hnd']; subst. destruct Hin as [->|Hin].
-  - rewrite str_eqb_refl. reflexivity.
+  - rewrite !str_eqb_refl. reflexivity.
   - destruct (str_eqb_spec (p_name q) (p_name p)) as [E|E]; [|apply IH; assumption].
-    exfalso. apply Hq. rewrite E. apply in_map. exact Hin.
+    destruct (str_eqb_spec (p_sub q) (p_sub p)) as [E2|E2]; [|apply IH; assumption].
+    exfalso. apply Hq. assert (Hk : pkg_key q = pkg_key p) by (unfold pkg_key; rewrite E, E2; reflexivity).
+    rewrite Hk. apply in_map. exact Hin.
 Qed.
+
+(* what the code ranges over for a requested pseudo label:
+   `:all` - the package with that name and subrepo (PackageByLabel);
+   `...`  - every package whose PackageMap key the label Includes (the label's Subrepo is not looked at) *)
+Definition code_covers (L : label) (p : package) : Prop :=
+  (l_name L = s "all" /\ p_name p = l_pkg L /\ p_sub p = l_sub L)
+  \/ (l_name L = s "..." /\ (l_pkg L = [] \/ pkg_key p = l_pkg L \/ exists rest, pkg_key p = l_pkg L ++ SLASH :: rest)).
 
 Lemma covers_pseudo_spec L pkgname :
   is_all_targets L = false ->
   is_pseudo L = true ->
-  (includes L {| l_pkg := pkgname; l_name := [] |} = true <-> covers L pkgname).
+  (includes L {| l_sub := []; l_pkg := pkgname; l_name := [] |} = true <->
+   l_name L = s "..." /\ (l_pkg L = [] \/ pkgname = l_pkg L \/ exists rest, pkgname = l_pkg L ++ SLASH :: rest)).
 Proof.
   intros Hall Hps. unfold is_pseudo in Hps. rewrite Hall, orb_false_r in Hps.
   unfold is_all_subpackages, is_all_targets in *. rewrite gen_all_sub in Hps. rewrite gen_all_targets in Hall.
   apply str_eqb_eq in Hps. apply str_eqb_neq in Hall.
-  rewrite includes_spec. unfold denotes, covers. cbn [l_pkg l_name]. split.
-  - intros [[_ H] | [[H _] | [_ H]]]; [right; split; assumption | contradiction|].
+  rewrite includes_spec. unfold denotes_names. cbn [l_pkg l_name]. split.
+  - intros [[_ H] | [[H _] | [_ H]]]; [split; assumption | contradiction|].
     rewrite Hps in H. discriminate.
-  - intros [[H _] | [_ H]]; [contradiction | left; split; assumption].
+  - intros [_ H]. left. split; assumption.
 Qed.
 
-(* per requested pseudo label: the expansion is exactly the set of targets of the covered packages that
+(* per requested pseudo label: the expansion is exactly the set of targets of the packages the code ranges over that
    BuildState.ShouldInclude accepts (and that are tests when only tests are wanted) *)
 Lemma expand_pseudo_in st g L jt lbl :
-  NoDup (map p_name g) -> is_pseudo L = true ->
+  NoDup (map pkg_key g) -> is_pseudo L = true ->
   (In lbl (expand_pseudo st g L jt) <->
-   exists p t, In p g /\ covers L (p_name p) /\ In t (p_targets p) /\ t_label t = lbl
+   exists p t, In p g /\ code_covers L p /\ In t (p_targets p) /\ t_label t = lbl
                /\ (jt = true -> t_test t = true) /\ state_should_include st t = true).
 Proof.
   intros Hnd Hps. unfold expand_pseudo. rewrite sort_in.
@@ -407,20 +459,45 @@ Proof.
     { unfold is_all_targets in Hall. rewrite gen_all_targets in Hall. apply str_eqb_eq. exact Hall. }
     unfold package_by_label. split.
     + destruct (find _ g) as [p|] eqn:Ef; [|intros []]. intros Hin.
-      apply find_some in Ef as [Hp Hn]. apply str_eqb_eq in Hn.
-      apply add_package_in in Hin as [t [Ht [Hl [Hs Hj]]]].
-      exists p, t. repeat split; try assumption. left. split; assumption.
-    + intros [p [t [Hp [Hc [Ht [Hl [Hj Hs]]]]]]].
-      assert (Hn : p_name p = l_pkg L).
+      apply find_some in Ef as [Hp Hn]. apply andb_true_iff in Hn as [Hn Hs]. apply str_eqb_eq in Hn, Hs.
+      apply add_package_in in Hin as [t [Ht [Hl [Hsi Hj]]]].
+      exists p, t. repeat split; try assumption. left. repeat split; assumption.
+    + intros [p [t [Hp [Hc [Ht [Hl [Hj Hsi]]]]]]].
+      assert (Hn : p_name p = l_pkg L /\ p_sub p = l_sub L).
       { destruct Hc as [[_ H] | [H _]]; [exact H | rewrite HallP in H; discriminate]. }
-      rewrite <- Hn, (find_unique g p Hnd Hp). apply add_package_in. exists t. repeat split; assumption.
-  - rewrite in_flat_map. split.
-    + intros [p [Hp Hin]]. destruct (includes L _) eqn:Ei; [|destruct Hin].
-      apply (covers_pseudo_spec L (p_name p) Hall Hps) in Ei.
-      apply add_package_in in Hin as [t [Ht [Hl [Hs Hj]]]]. exists p, t. repeat split; assumption.
-    + intros [p [t [Hp [Hc [Ht [Hl [Hj Hs]]]]]]]. exists p. split; [exact Hp|].
-      apply (covers_pseudo_spec L (p_name p) Hall Hps) in Hc. rewrite Hc.
+      destruct Hn as [Hn Hs]. rewrite <- Hn, <- Hs, (find_unique g p Hnd Hp).
       apply add_package_in. exists t. repeat split; assumption.
+  - assert (Hnall : l_name L <> s "all").
+    { unfold is_all_targets in Hall. rewrite gen_all_targets in Hall. apply str_eqb_neq. exact Hall. }
+    rewrite in_flat_map. split.
+    + intros [p [Hp Hin]]. destruct (includes L _) eqn:Ei; [|destruct Hin].
+      apply (covers_pseudo_spec L (pkg_key p) Hall Hps) in Ei.
+      apply add_package_in in Hin as [t [Ht [Hl [Hsi Hj]]]]. exists p, t. repeat split; try assumption.
+      right. exact Ei.
+    + intros [p [t [Hp [Hc [Ht [Hl [Hj Hsi]]]]]]]. exists p. split; [exact Hp|].
+      destruct Hc as [[H _] | Hc]; [contradiction|].
+      apply (covers_pseudo_spec L (pkg_key p) Hall Hps) in Hc. rewrite Hc.
+      apply add_package_in. exists t. repeat split; assumption.
+Qed.
+
+(* where the code's range and the documented range of a pseudo label coincide: always for `:all`; for `...` when label
+   and graph are of the host repository *)
+Lemma code_covers_spec g L p :
+  is_pseudo L = true -> In p g ->
+  (is_all_targets L = true \/ host_only g L) ->
+  (code_covers L p <-> covers L p).
+Proof.
+  intros Hps Hp Hok. unfold code_covers, covers, covers_names.
+  destruct Hok as [Hall | [HL Hg]].
+  - unfold is_all_targets in Hall. rewrite gen_all_targets in Hall. apply str_eqb_eq in Hall. split.
+    + intros [[_ [H1 H2]] | [H _]]; [|rewrite Hall in H; discriminate].
+      split; [exact H2 | left; split; assumption].
+    + intros [H2 [[_ H1] | [H _]]]; [|rewrite Hall in H; discriminate].
+      left. repeat split; assumption.
+  - assert (Hk : pkg_key p = p_name p) by (unfold pkg_key; rewrite (Hg p Hp); reflexivity).
+    rewrite Hk, HL, (Hg p Hp). split.
+    + intros [[H1 [H2 _]] | H]; (split; [reflexivity|]); [left; split; assumption | right; exact H].
+    + intros [_ [[H1 H2] | H]]; [left; repeat split; assumption | right; exact H].
 Qed.
 
 Lemma nodup_app {A} (a b : list A) : NoDup a -> NoDup b -> (forall x, In x a -> ~ In x b) -> NoDup (a ++ b).
@@ -433,10 +510,10 @@ Qed.
 
 (* no target is listed twice *)
 Lemma t_label_inj_in_package p :
-  (forall t, In t (p_targets p) -> t_pkg t = p_name p) -> NoDup (map t_name (p_targets p)) ->
+  NoDup (map t_name (p_targets p)) ->
   forall f, NoDup (map t_label (filter f (p_targets p))).
 Proof.
-  intros _ Hnd f. induction (p_targets p) as [|t ts IH]; cbn [filter map]; [constructor|].
+  intros Hnd f. induction (p_targets p) as [|t ts IH]; cbn [filter map]; [constructor|].
   cbn [map] in Hnd. inversion Hnd as [|? ? Hn Hnd']; subst.
   destruct (f t); [|apply IH; exact Hnd']. cbn [map]. constructor; [|apply IH; exact Hnd'].
   intros Hin. apply in_map_iff in Hin as [t' [Hl Hin]]. apply filter_In in Hin as [Hin _].
@@ -444,9 +521,10 @@ Proof.
 Qed.
 
 Lemma add_package_pkg st jt p lbl :
-  (forall t, In t (p_targets p) -> t_pkg t = p_name p) -> In lbl (add_package st jt p) -> l_pkg lbl = p_name p.
+  (forall t, In t (p_targets p) -> t_pkg t = p_name p /\ t_sub t = p_sub p) -> In lbl (add_package st jt p) ->
+  l_pkg lbl = p_name p /\ l_sub lbl = p_sub p.
 Proof.
-  intros Hw Hin. apply add_package_in in Hin as [t [Ht [<- _]]]. cbn [t_label l_pkg]. apply Hw. exact Ht.
+  intros Hw Hin. apply add_package_in in Hin as [t [Ht [<- _]]]. cbn [t_label l_pkg l_sub]. apply Hw. exact Ht.
 Qed.
 
 Lemma expand_pseudo_nodup st g L jt : wf_graph g -> NoDup (expand_pseudo st g L jt).
@@ -457,15 +535,19 @@ Proof.
     apply find_some in Ef as [Hp _]. destruct (Hw p Hp) as [H1 H2]. apply t_label_inj_in_package; assumption.
   - induction g as [|p g IH]; cbn [flat_map]; [constructor|].
     cbn [map] in Hnd. inversion Hnd as [|? ? Hn Hnd']; subst.
-    assert (Hw' : forall q, In q g -> NoDup (map t_name (p_targets q)) /\ forall t, In t (p_targets q) -> t_pkg t = p_name q)
+    assert (Hw' : forall q, In q g -> NoDup (map t_name (p_targets q))
+                                     /\ forall t, In t (p_targets q) -> t_pkg t = p_name q /\ t_sub t = p_sub q)
       by (intros q Hq; apply Hw; right; exact Hq).
     specialize (IH Hnd' Hw'). destruct (Hw p (or_introl eq_refl)) as [H1 H2].
     assert (Hdis : forall lbl, In lbl (add_package st jt p) ->
-                   ~ In lbl (flat_map (fun q => if includes L {| l_pkg := p_name q; l_name := [] |} then add_package st jt q else []) g)).
+                   ~ In lbl (flat_map (fun q => if includes L {| l_sub := []; l_pkg := pkg_key q; l_name := [] |}
+                                                then add_package st jt q else []) g)).
     { intros lbl Hin Hin2. apply in_flat_map in Hin2 as [q [Hq Hin2]].
       destruct (includes L _); [|destruct Hin2].
-      apply add_package_pkg in Hin; [|exact H2]. apply add_package_pkg in Hin2; [|apply Hw'; exact Hq].
-      apply Hn. rewrite <- Hin, Hin2. apply in_map. exact Hq. }
+      apply add_package_pkg in Hin as [Ha Hb]; [|exact H2].
+      apply add_package_pkg in Hin2 as [Ha2 Hb2]; [|apply Hw'; exact Hq].
+      apply Hn. assert (Hk : pkg_key p = pkg_key q) by (unfold pkg_key; rewrite <- Ha, <- Hb, Ha2, Hb2; reflexivity).
+      rewrite Hk. apply in_map. exact Hq. }
     destruct (includes L _).
     + apply nodup_app; [apply t_label_inj_in_package; assumption | exact IH | exact Hdis].
     + exact IH.
@@ -480,24 +562,54 @@ Proof.
   assert (any_includes (st_exclude_targets st) (t_label t) = true) as ->; [|reflexivity].
   apply any_includes_spec in Ha as [e [He Hd]]. apply any_includes_spec. exists e. split; [exact He|].
   unfold is_all_targets in Hall. rewrite gen_all_targets in Hall. apply str_eqb_eq in Hall.
-  unfold denotes in *. cbn [t_label l_pkg l_name]. rewrite Hp.
+  unfold denotes_names in *. cbn [t_label l_pkg l_name]. rewrite Hp.
   destruct Hd as [H | [H | [H1 H2]]]; [left; exact H | right; left; exact H|].
   right. left. split; [congruence | exact H1].
 Qed.
 
+(* ... and, read against the documented rule: a requested :all label of the same repository as the exclude expressions
+   that cover it loses no target the rule selects *)
+Lemma dropped_all_loses_nothing cur include exclude st L t :
+  set_include_and_exclude cur empty_state include exclude = Some st ->
+  is_all_targets L = true -> any_includes (st_exclude_targets st) L = true ->
+  t_pkg t = l_pkg L -> confused st t = false -> ~ selected cur include exclude t.
+Proof.
+  intros Hset Hall Ha Hp Hc Hsel.
+  pose proof (dropped_all_consistent st L t Hall Ha Hp) as Hf.
+  pose proof (state_should_include_complete _ _ _ _ t Hset Hc Hsel). congruence.
+Qed.
+
 (* ---- the set-level theorem against the documented rule -------------------------------------------------- *)
-Lemma expand_pseudo_selected include exclude st g L jt :
-  set_include_and_exclude empty_state include exclude = Some st ->
+Lemma expand_pseudo_selected cur include exclude st g L jt :
+  set_include_and_exclude cur empty_state include exclude = Some st ->
   wf_graph g -> is_pseudo L = true ->
-  (forall lbl, In lbl (expand_pseudo st g L jt) <-> in_selection include exclude g L jt lbl)
+  (is_all_targets L = true \/ host_only g L) ->
+  (forall p t, In p g -> In t (p_targets p) -> confused st t = false) ->
+  (forall lbl, In lbl (expand_pseudo st g L jt) <-> in_selection cur include exclude g L jt lbl)
   /\ NoDup (expand_pseudo st g L jt).
 Proof.
-  intros Hset Hwf Hps. split; [|apply expand_pseudo_nodup; exact Hwf].
+  intros Hset Hwf Hps Hok Hconf. split; [|apply expand_pseudo_nodup; exact Hwf].
   intros lbl. rewrite (expand_pseudo_in st g L jt lbl (proj1 Hwf) Hps). unfold in_selection. split.
   - intros [p [t [H1 [H2 [H3 [H4 [H5 H6]]]]]]]. exists p, t. repeat split; try assumption.
-    all: apply (state_should_include_spec _ _ _ t Hset) in H6; apply H6.
+    1,2: apply (code_covers_spec g L p Hps H1 Hok) in H2; apply H2.
+    all: apply (state_should_include_sound _ _ _ _ t Hset) in H6; apply H6.
   - intros [p [t [H1 [H2 [H3 [H4 [H5 H6]]]]]]]. exists p, t. repeat split; try assumption.
-    apply (state_should_include_spec _ _ _ t Hset). exact H6.
+    + apply (code_covers_spec g L p Hps H1 Hok). exact H2.
+    + apply (state_should_include_complete _ _ _ _ t Hset (Hconf p t H1 H3)). exact H6.
+Qed.
+
+(* without any side condition: everything the expansion lists is in the documented selection of the packages the
+   code ranges over, each once (exclusion is never lost, whatever the subrepos) *)
+Lemma expand_pseudo_sound cur include exclude st g L jt lbl :
+  set_include_and_exclude cur empty_state include exclude = Some st ->
+  wf_graph g -> is_pseudo L = true ->
+  In lbl (expand_pseudo st g L jt) ->
+  exists p t, In p g /\ code_covers L p /\ In t (p_targets p) /\ t_label t = lbl
+              /\ (jt = true -> t_test t = true) /\ selected cur include exclude t.
+Proof.
+  intros Hset Hwf Hps Hin. apply (expand_pseudo_in st g L jt lbl (proj1 Hwf) Hps) in Hin.
+  destruct Hin as [p [t [H1 [H2 [H3 [H4 [H5 H6]]]]]]]. exists p, t. repeat split; try assumption.
+  all: apply (state_should_include_sound _ _ _ _ t Hset) in H6; apply H6.
 Qed.
 
 (* several requested labels: pseudo labels are expanded, any other label is passed through unfiltered *)
@@ -512,7 +624,7 @@ Proof.
   - intros [L [HL [[Hp ->] | [Hp Hin]]]]; exists L; (split; [exact HL|]); rewrite Hp; [left; reflexivity | exact Hin].
 Qed.
 
-Lemma no_filters include exclude st :
-  set_include_and_exclude empty_state include exclude = Some st ->
+Lemma no_filters cur include exclude st :
+  set_include_and_exclude cur empty_state include exclude = Some st ->
   include = [] -> exclude = [] -> forall t, state_should_include st t = true.
-Proof. intros H -> -> t. exact (no_filters_selects_all st t H). Qed.
+Proof. intros H -> -> t. exact (no_filters_selects_all cur st t H). Qed.
